@@ -11,7 +11,7 @@ CHECKS = {
          "alphabets with complete state graphs (lists of any length with <= 3 distinct full citations); one citation list per graph transition "
          "is replayed into the real resolve_citations and the recorded mapping is judged by the C06 monitor clauses of Trace_Resolve.tla in TLC "
          "(disjoint, same objects, input order, head is full, every full once, share-iff-equal, unknown never) and compared step by step with the model. "
-         "Bounded-exhaustive over the abstract alphabet; in addition the lists EXTRACTED by get_citations from generated citation-dense documents and from every reporters-db example citation next to its neighbours are resolved and judged by the same TLC monitors (abstracted from the real objects)."), note=RES_NOTE),
+         "Bounded-exhaustive over the abstract alphabet; histories: the random walks are resolved AGAIN on the same objects after the caller cleared every plaintiff (judged against the edited symbols), extracted lists again after an edition became known; placeholder pages of one to three underscores; the same written citation with years deciding for different editions; in addition the lists EXTRACTED by get_citations from generated citation-dense documents and from every reporters-db example citation next to its neighbours are resolved and judged by the same TLC monitors (abstracted from the real objects)."), note=RES_NOTE),
  "C07": dict(engine="resolve", design="4 C07",
    technique="TLA+ model checking of Resolve.tla (NeverGuess, IdOnlyPredecessor) + transition replay + TLC trace validation",
    text=("Same machinery as C06; the action properties NeverGuess / IdOnlyPredecessor / LastIsOutcome are checked on the model, and the monitor "
@@ -36,7 +36,7 @@ ANN_NOTE = ("Trusted: TLC 1.8 + Json module; token concretisation (digits for pl
 _ann = ("Annotate.tla (one action per iteration of the annotation loop: translate through SpanUpdater, clip, balance test, style-tag repair, wrap, emit) "
         "and SpanUpdater.tla are model-checked by TLC for every target text of <= 4 tokens (text, inserted whitespace, <i>, <p>, (<b>)), with and without a source, "
         "3 modes, every sorted list of <= 2 spans, and for every well-formed markup of <= 8 tokens; every terminal configuration of the emit instances is replayed "
-        "through the real annotate_citations with both diff engines (incl. bold runs with self-closing elements and style runs with two annotations), plus every span and every pair of spans of short texts with blanks, sources that LACK parts of the plain text (token class d: deletions of the diff, also leading ones and the empty source; found defect F26, fixed 69c0903), <div> elements (the name of the balance test's own wrapper), long multi-line forced-alignment documents, the clean -> extract -> annotate pipeline on marked-up documents and arbitrary string pairs; "
+        "through the real annotate_citations with both diff engines (incl. bold runs with self-closing elements and style runs with two annotations), plus every span and every pair of spans of short texts with blanks, sources that LACK parts of the plain text (token class d: deletions of the diff, also leading ones and the empty source; found defect F26, fixed 69c0903), <div> elements (the name of the balance test's own wrapper), equal span texts in different neighbourhoods (every plain character the same digit), a caller-supplied annotator= on every third call, long multi-line forced-alignment documents, the clean -> extract -> annotate pipeline on marked-up documents and arbitrary string pairs; "
         "TLC judges every recorded output with the monitor clauses and compares it with the model. ")
 CHECKS["C09"] = dict(engine="annotate", design="4 C09", technique="TLA+ model checking of Annotate.tla (invariant Additive at every loop step) + configuration replay + TLC trace validation",
    text=_ann + "C09 clause: the output with the inserted strings removed equals the target text.", note=ANN_NOTE)
@@ -47,7 +47,7 @@ CHECKS["C11"] = dict(engine="annotate", design="4 C11", technique="TLA+ model ch
 CHECKS["C20"] = dict(engine="clean", design="4 C20", technique="TLA+ model checking of Clean.tla (TLC) + bounded-exhaustive replay through the real cleaners + TLC trace validation",
    text=("Clean.tla transcribes the three regex cleaners over six character classes, clean_text as a fold with ValueError, and the html cleaner over properly nested "
          "token documents (div/p/i/script/style/head/link, blank and non-blank text, entities). TLC checks idempotence, no-run-left, other-characters-kept for every text of "
-         "<= 6 (thorough 8) characters and the composition law for every split of every step list; every emitted text (two concretisations) and document is run through "
+         "<= 6 (thorough 8) characters and the composition law for every split of every step list (also for the list applied again, immediately, to its own output); every emitted text (two concretisations) and document is run through "
          "the real cleaners and TLC judges the recorded outputs (incl. clean_text(t, s) vs step-by-step for all lists of <= 3 steps with repeats, unknown names, custom callables and non-callable step values, and "
          "html() = visible text nodes joined by spaces) and compares class images with the model."),
    note="Trusted: TLC + Json module; class representatives (harness/drv_clean.py); lxml's HTML parser defines what a text node is (documents avoid leading whitespace in text nodes, <title>, empty input).")
@@ -56,7 +56,7 @@ CHECKS["C13"] = dict(engine="ahofilter", design="4 C13", technique="regular-lang
          "predicates are classified by `re` itself over all 0x110000 code points; TLC explores the product with the Aho-Corasick automaton of the extractor's filter strings "
          "(fold as in the tokenizer) and reports every accepting product state that has seen no literal -- a complete decision of L(pattern) in Sigma* literals Sigma*. "
          "Counterexample words are confirmed on the real regex and real get_extractors before they count. In addition one shortest accepted word per extractor, every filter string of every case-insensitive extractor in every case-variant spelling "
-         "(each character replaced by each of its variants, incl. the non-ASCII ones re.IGNORECASE accepts: U+0130, U+0131, U+017F, U+212A), generated "
+         "(each character replaced by each of its variants, incl. the non-ASCII ones re.IGNORECASE accepts: U+0130, U+0131, U+017F, U+212A), a caller's own extractors with mixed-case filter strings next to the shipped special ones, generated "
          "documents and random sub-lists are run through AhocorasickTokenizer and the reference Tokenizer and TLC judges matching-subset-selected and stream equality."),
    note="Trusted for passing verdicts: the regex->NFA translation and the AC table construction in harness/regex2nfa.py (validated by witness words in both directions); anchors treated as epsilon.")
 CHECKS["C15"] = dict(engine="purity", design="4 C15", technique="TLA+ model checking of Purity.tla (threads x calls x hash-seed permutation; TLC emits the step-level schedules) + replay of every call-level history in fresh processes under different PYTHONHASHSEED + deterministic two-thread schedules (sys.settrace scheduler) + TLC trace validation",
@@ -81,7 +81,7 @@ CHECKS["C16"] = dict(engine="equality", design="4 C16", technique="TLA+ model ch
          "citations over a toy database containing every ambiguity pattern: CaseIff (equal iff same class, volume, page, corrected reporter, page not placeholder), SelfOnly, CrossKind, "
          "HashResource, MetaFree. For every reporter string that reporters-db (read directly) maps to exactly one edition a comparison group is extracted: canonical and variant spelling in "
          "different contexts (pin, year in / out of the edition's range, and -- for an edition name that is also a variation of other editions -- the first / last year of each of those, parties, parenthetical, court), other page, other volume, a sibling edition, short forms, two placeholder pages; "
-         "plus nominative / id / unknown / law / journal groups and pools of all database examples. TLC judges ==, hash, Resource against the written identity, the equivalence laws and the "
+         "plus groups around every reporter string that names several editions (an edition name shared by two reporters; a variation of differently named editions -- identities read off the extracted objects), compared again after resolve_citations used the objects (history), some members extracted through the Hyperscan tokenizer, nominative / id / unknown / law / journal groups and pools of all database examples. TLC judges ==, hash, Resource against the written identity, the equivalence laws and the "
          "corrected_citation round trip."),
    note="Trusted: TLC + Json; members not extracted exactly as written (custom templates) are skipped and counted; example pools take the written identity from the extracted groups.")
 EXT_NOTE = ("Trusted: TLC + Json; 'every string' is reached through the hostile closure of the fragment grammar (bounded depth); "
@@ -116,7 +116,7 @@ CHECKS["C19"] = dict(engine="markup", design="4 C19", technique="TLA+ model chec
          "markup mode and in plain mode on the cleaned text; TLC judges: non-reference citations identical, reference offsets valid, each reference after a full case citation one of whose valid names occurs in its text."),
    note="Trusted: TLC + Json; the name-validity rule is transcribed in the harness; the witness (which full citation / name / offset) is searched by the harness and verified by TLC.")
 CHECKS["C05"] = dict(engine="scenario", design="4 C05", technique="TLA+ model checking of Scenario.tla on top of Resolve.tla + every scenario rendered into one running text through get_citations and resolve_citations + TLC trace validation",
-   text=("Scenario.tla builds documents sentence by sentence over 2-3 distinct cases with distinct or colliding (reporter, volume) (F.2d / F.3d with the same volume; the same reporter and volume), each reference "
+   text=("Scenario.tla builds documents sentence by sentence over 2-3 distinct cases with distinct or colliding (reporter, volume) (F.2d / F.3d with the same volume; the same reporter and volume; every 12th scenario also with Met. / Wash., each the name of two editions), each reference "
          "labelled with the case it was written to refer to, whether it is unambiguous in the property's sense and whether it must be left out; TLC checks on the Resolve.tla model that every unambiguous reference "
          "joins its intended case, impossible-pin ids and ids after an unresolved citation join nothing, one resource per case. Every scenario (quick: 30,000 per configuration) is rendered into ONE running text, "
          "extracted and resolved by the real code, and TLC judges the recorded grouping with the same clauses."),
